@@ -167,6 +167,18 @@ CLAIMED = {
          "xAdvance/xPlacement/xAdvance-device, anchors to formats 1 and 3; big lookups judged by the validated walker.",
     technique="TLA+ lookup semantics; TLC-enumerated glyph sets replayed on the builders; trace validation of compiled GPOS lookups incl. split/extension",
     design="4/C16"),
+ "C17": dict(
+    category="model_checking",
+    text="Subset.tla models the subsetter's planning and table steps as actions and TLC checks the property's clauses "
+         "(closure contained, ids retained, requested characters mapped and nothing else, outlines and advances preserved "
+         "through component rewriting and long-metric trimming, gaps empty) for every request over small abstract fonts; "
+         "every explored case is replayed on klippa with the abstract font built as a real font, and the reopened subset is "
+         "judged by SubsetTrace.tla; random requests, re-subsetting and subsetting-to-everything on all glyf fonts of the "
+         "repository corpus are judged by the same trace specification.",
+    note="Trusted: TLC, skrifa as the observer of both fonts (the same reader on both sides), read-fonts' composite parser for "
+         "the component lists, hook H6 for the renumbering. Requests over 6-glyph model fonts exhaustively, corpus requests sampled.",
+    technique="TLA+ plan/table-step model of the subsetter; TLC-enumerated requests replayed on klippa; trace validation of reopened subsets (model fonts + corpus)",
+    design="4/C17"),
 }
 
 NOT_APPLICABLE = {
